@@ -747,6 +747,13 @@ def _fkey(form):
     return " ".join(str(x) for x in form)
 
 
+def _probe_violation(ctx, what_key, what, src, detail):
+    """a one-operator / one-call probe is itself a concrete input: the table extracted from the source says it is accepted and
+    lowers to given ops, but the real check()/lowering crashes, rejects it, or emits something else — the operator no longer
+    yields Python's result on operands where it is defined"""
+    ctx.violation("probe:" + what_key, what, {"probe_source": src, "detail": detail})
+
+
 def tie(ctx):
     T = Table()
     G = grids(ctx)
@@ -772,6 +779,9 @@ def tie(ctx):
             continue
         if st != "ok":
             ctx.broke(f"T-obj: probe for table row {ty}.{name} does not compile: {st} {funcs}")
+            _probe_violation(ctx, f"row {ty}.{name} {' '.join(params)}",
+                             f"`{call}` with operand types ({', '.join(params)}) is a table row ({_impl_str(row)}) but the real compiler "
+                             f"fails on it: {st} {funcs}", src, {"status": st, "info": str(funcs)})
             row_mismatch += 1
             continue
         kind = row["impl"]["kind"]
@@ -787,11 +797,17 @@ def tie(ctx):
             got_body = sorted(nm for nm, _s in callee[0]) if callee else None
             if got_body != want_body:
                 ctx.broke(f"T-obj: body row {ty}.{name}: compiled FuncDefn has ops {got_body}, table/body AST predicts {want_body}")
+                _probe_violation(ctx, f"row {ty}.{name} {' '.join(params)}",
+                                 f"`{call}` ({', '.join(params)}): compiled body has ops {got_body}, the source's body predicts {want_body}",
+                                 src, {"got": got_body, "want": want_body})
                 row_mismatch += 1
         else:
             want = T.call_ops(row, params)[0]
             if [nm for nm, _s in got] != want:
                 ctx.broke(f"T-obj: row {ty}.{name}: real compiler emits {[nm for nm, _s in got]}, table says {want}")
+                _probe_violation(ctx, f"row {ty}.{name} {' '.join(params)}",
+                                 f"`{call}` ({', '.join(params)}) lowers to {[nm for nm, _s in got]} but its table row says {want}",
+                                 src, {"got": [nm for nm, _s in got], "want": want})
                 row_mismatch += 1
                 continue
             # operand wiring: a reflected dunder must feed (other, self)
@@ -800,6 +816,9 @@ def tie(ctx):
                 exp_w = ["p1", "p0"] if kind == "reversed" else ["p0", "p1"]
                 if "?" not in wiring and wiring != exp_w:
                     ctx.broke(f"T-obj: row {ty}.{name}: operand wiring {wiring}, expected {exp_w}")
+                    _probe_violation(ctx, f"row {ty}.{name} {' '.join(params)}",
+                                     f"`{call}` ({', '.join(params)}): operands reach {got[-1][0]} as {wiring}, expected {exp_w}",
+                                     src, {"wiring": wiring, "want": exp_w})
                     row_mismatch += 1
     ctx.extra["row_probe_mismatches"] = row_mismatch
 
@@ -821,11 +840,6 @@ def tie(ctx):
         src = form_src(form)
         st, funcs = lower_probe(src)
         fk = _fkey(form)
-        if st != "ok":
-            ctx.broke(f"T-obj: operator form `{fk}` is not accepted/compiled by the real compiler: {st} {funcs}")
-            ctx.count({"form": fk}, nontrivial=True, kind=f"form:{st}")
-            continue
-        fops = funcs.get("f", [])
         # expectation for the probe function from the table
         try:
             if form[0] == "bin":
@@ -841,9 +855,22 @@ def tie(ctx):
         except KeyError as e:
             exp = None
             ctx.broke(f"T-src: no table row for form `{fk}` ({e})")
+        if st != "ok":
+            ctx.broke(f"T-obj: operator form `{fk}` is not accepted/compiled by the real compiler: {st} {funcs}")
+            ctx.count({"form": fk}, nontrivial=True, kind=f"form:{st}")
+            if exp is not None:
+                _probe_violation(ctx, f"form {fk}", f"`{fk}`: the dunder table accepts these operand types (ops {exp[0]}) but the real "
+                                 f"check()/lowering fails: {st} {funcs}", src, {"status": st, "info": str(funcs), "table_ops": exp[0]})
+            continue
+        fops = funcs.get("f", [])
         ctx.count({"form": fk, "ops": [nm for nm, _s in fops]}, nontrivial=True, kind="form:ok")
+        if exp is None:
+            _probe_violation(ctx, f"form {fk}", f"`{fk}` is accepted by the real compiler (ops {[nm for nm, _s in fops]}) but the dunder "
+                             f"table has no applicable row", src, {"got": [nm for nm, _s in fops]})
         if exp is not None and [nm for nm, _s in fops] != exp[0]:
             ctx.broke(f"T-obj: form `{fk}`: real compiler emits {[nm for nm, _s in fops]}, table dispatch predicts {exp[0]}")
+            _probe_violation(ctx, f"form {fk}", f"`{fk}` lowers to {[nm for nm, _s in fops]} but the table dispatch predicts {exp[0]}",
+                             src, {"got": [nm for nm, _s in fops], "want": exp[0]})
         # independent REAL value path: exactly one integer op in the probe function, operands wired from the parameters
         single = None
         ints = [(nm, s) for nm, s in fops if nm.startswith("arithmetic.int.")]
